@@ -49,6 +49,7 @@ void vs_begin(const vs_cfg_t *cfg);     /* calling thread becomes thread 0 and h
 int  vs_active(void);
 int  vs_self_id(void);
 void vs_point(void);                    /* explicit scheduling point (environment operations) */
+extern int vs_unlock_points_req;        /* set from the job (e1_spec_t.unlock_points): applied to vs_unlock_points while the exploration window is open */
 extern int vs_unlock_points;            /* bit 0: every unlock is followed by a scheduling point, bit 1: every mutex unlock is preceded by one (default 0: points at acquisitions only) */
 void vs_idle_wait(void);                /* block until no other thread is enabled (no time passes) */
 void vs_sleep_us(uint64_t us);          /* virtual sleep of the calling thread */
